@@ -8,7 +8,7 @@ from collections import Counter
 PKG = "network/transport/v2"
 HARNESS = ["network/transport/v2/zz_verif_c07_test.go", "network/transport/v2/zz_verif_c07_gen_test.go",
            "network/transport/v2/zz_verif_c15_test.go", "network/transport/v2/gossip/zz_verif_export_c07.go",
-           "network/transport/v2/zz_verif_c07_disp_test.go", "network/transport/v2/zz_verif_c07_addr_test.go",
+           "network/transport/v2/zz_verif_c07_disp_test.go", "network/transport/v2/zz_verif_c07_addr_test.go", "network/transport/v2/zz_verif_c07_convlock_test.go",
            "network/transport/grpc/zz_verif_export_c07.go"]
 
 REQUIRED = ["safety_any_schedule", "unsolicited_responses_change_no_dag", "chunks_lossless", "stable_when_equal",
@@ -20,7 +20,8 @@ REQUIRED = ["safety_any_schedule", "unsolicited_responses_change_no_dag", "chunk
             "dispatcher_refines_handler_sequence", "dispatcher_safety_any_goroutine_schedule", "full_channel_drop_is_loss", "handle_error_classification",
             "list_handler_drains_in_order", "fact_dispatch_table_routes", "fact_dispatcher_shape",
             "fact_send_gossip_addressing", "fact_send_gossip_query_interpreted", "fact_connection_lookup_shape", "gossip_addressed_to_queue_owner",
-            "gossip_reaches_connected_owner", "did_addressing_starves_a_peer", "empty_query_selects_nothing"]
+            "gossip_reaches_connected_owner", "did_addressing_starves_a_peer", "empty_query_selects_nothing",
+            "fact_conversation_lock_discipline", "conversation_manager_releases_lock_on_every_exit", "refusal_without_unlock_keeps_manager_locked"]
 
 
 IBLT_PKG = "network/dag/tree"
@@ -305,8 +306,8 @@ def run_addr(ctx, binary):
                  f"connection of peer {tk}; the queue's peer is starved: {l[:300]}", i)
         elif not c.get("conn"):
             viol("C07:gossip-sent-on-disconnected-connection", f"sendGossip used a connection that is not connected: {l[:300]}", i)
-        elif not owners or idx != owners[0]:
-            viol("C07:gossip-not-first-connected-owner", f"sendGossip used connection {idx}, the connected connections of the peer are {owners}: {l[:300]}", i)
+        elif idx not in owners:
+            viol("C07:gossip-not-to-a-connected-owner", f"sendGossip used connection {idx}, the connected connections of the peer are {owners}: {l[:300]}", i)
         if cleared != bool(c.get("ok")):
             stats["send-failed"] += 0
             viol("C07:gossip-queue-cleared-iff-sent", f"Send on connection {idx} {'succeeded' if c.get('ok') else 'failed'} but sendGossip returned {cleared}: {l[:300]}", i)
@@ -328,6 +329,73 @@ def run_addr(ctx, binary):
     else:
         ctx.oblige("correspondence:addressing-model=impl", True, f"{len(impl)} lines equal")
     ctx.cov["addressing_leg"] = {"ops": len(impl), **dict(stats)}
+
+
+def is_convlock_replay(path):
+    try:
+        with open(path) as f:
+            return '"op":"convlock"' in f.read(200)
+    except OSError:
+        return False
+
+
+def run_convlock(ctx, binary):
+    """the REAL conversationManager called directly with a TryLock probe after every call vs the model's conversation functions +
+    the regenerated lock discipline; model-free oracle: after a method returned, cMan.mutex is free"""
+    env = {"VERIF_CORPUS": os.path.join(os.path.dirname(os.path.dirname(os.path.abspath(__file__))), "harness", "corpus", "C07")}
+    if ctx.replay:
+        env["VERIF_REPLAY"] = os.path.abspath(ctx.replay)
+    out = os.path.join(ctx.scratch, "out_convlock")
+    rc, log, out = ctx.run_harness(binary, "TestVerifC07ConvLock$", env, outdir=out, timeout=600)
+    if rc != 0:
+        ctx.oblige("convlock-harness-runs", False, log[-1500:])
+        return
+    ops_p, impl_p, model_p = (os.path.join(out, x) for x in ("ops.jsonl", "impl.out", "model.out"))
+    ok, err = ctx.model("C07", ops_p, model_p)
+    ctx.oblige("convlock-model-driver-runs", ok, err[-500:])
+    impl, model, bad = ctx.compare(impl_p, model_p)
+    ops = ctx.read_lines(ops_p)
+    n_bad, per_sig, stats = 0, Counter(), Counter()
+
+    def viol(sig, what, i):
+        nonlocal n_bad
+        n_bad += 1
+        per_sig[sig] += 1
+        if per_sig[sig] <= 2:
+            ctx.violation(sig, what, f"convlock-{sig.split(':')[1]}-{i}.jsonl", ops[i] + "\n")
+
+    for i, l in enumerate(impl):
+        if i >= len(ops):
+            break
+        toks = l.split(" ")[1:]
+        if "panic:" in l:
+            viol("C07:conversation-manager-panic", f"conversation manager panicked: {l[:300]}", i)
+            continue
+        for t in toks:
+            if t == "STOP":
+                continue
+            f = t.split(":")
+            stats[f[0] + (":" + f[2] if f[0].startswith("start") and len(f) > 2 else "")] += 1
+            if ":held" in t:
+                viol("C07:conversation-manager-locked-after-return", f"after `{t.rsplit(':', 1)[0]}` returned, cMan.mutex is still held: every later request "
+                     f"(startConversation) and response (check / done) of this node blocks forever — no further reconciliation: {l[:400]}", i)
+                break
+    ctx.oblige("oracle:conversation-manager-mutex-free-after-every-call(impl)", n_bad == 0, f"{n_bad} problems")
+    if not ctx.replay:
+        miss = [k for k in ("startR:refused", "startL:refused", "startS:ok", "startR:ok", "done", "reset", "evict", "check") if not stats[k]]
+        ctx.oblige("generator-reaches-the-conversation-manager-outcomes", not miss, f"not reached: {miss}")
+    if bad:
+        i = bad[0]
+        detail = f"conversation-manager leg: first differing line {i}\nop   : {ops[i][:400] if i < len(ops) else None}\nimpl : {impl[i][:500] if i < len(impl) else None}\nmodel: {model[i][:500] if i < len(model) else None}"
+        ctx.oblige("correspondence:convlock-model=impl", False, f"{len(bad)} of {len(impl)} lines differ; " + detail[:900])
+        if n_bad == 0:
+            with open(os.path.join(ctx.replay_dir(), "convlock-correspondence.jsonl"), "w") as f:
+                f.write(ops[i] + "\n" if i < len(ops) else "")
+            ctx.unproved(["correspondence C07 conversation manager (conversation.go != NutsModel/C07/Dag.lean conversation functions / ConvLock.lean)"],
+                         detail + f"\nreplay ops: {ctx.replay_dir()}/convlock-correspondence.jsonl")
+    else:
+        ctx.oblige("correspondence:convlock-model=impl", True, f"{len(impl)} lines equal")
+    ctx.cov["conversation_manager_leg"] = {"ops": len(impl), **dict(stats)}
 
 
 def scenario_slices(ops):
@@ -408,9 +476,13 @@ def run(ctx):
     if ctx.replay and is_addr_replay(ctx.replay):
         run_addr(ctx, binary)
         return
+    if ctx.replay and is_convlock_replay(ctx.replay):
+        run_convlock(ctx, binary)
+        return
     if not ctx.replay:
         run_disp(ctx, binary)
         run_addr(ctx, binary)
+        run_convlock(ctx, binary)
     env = {}
     if ctx.replay:
         env["VERIF_REPLAY"] = os.path.abspath(ctx.replay)
